@@ -694,8 +694,12 @@ pub fn call_with<'b>(op: &Op, args: &'b [Vec<u8>], trees: &[MVal], buf: &mut Vec
             if let jsonb::Value::Number(n) = mval::to_value(&trees[*v]) {
                 let before = buf.len();
                 match n.compact_encode(&mut *buf) {
-                    Ok(len) if buf.len() >= before && len == buf.len() - before => LibOut::Wrote(Ok(())),
-                    Ok(len) => LibOut::Wrote(Err(format!("reported_{len}_bytes_but_buffer_grew_by_{}", buf.len() as i64 - before as i64))),
+                    // the returned length is not judged: C17 speaks of the bytes appended (compared with the empty-buffer
+                    // twin by the scenario) and of the offsets path selection reports, not of this return value
+                    Ok(_) => {
+                        let _ = before;
+                        LibOut::Wrote(Ok(()))
+                    }
                     Err(e) => LibOut::Wrote(Err(err_name(&e))),
                 }
             } else {
